@@ -8,7 +8,7 @@ import vlib, msgcommon as mc
 from vlib import Inconclusive
 
 LEVEL = "model_checking"
-NSLICES_QUICK = 16
+NSLICES_QUICK = 32
 
 ALPHABET = [  # valid-looking and a few forged messages presented under every progress state
     dict(ph="QUALITY", r=0), dict(ph="PREPARE", r=0),
@@ -22,11 +22,7 @@ ALPHABET = [  # valid-looking and a few forged messages presented under every pr
 ]
 
 
-def base_row(**k):
-    d = dict(ph="PREPARE", r=0, v="ext", snd="member", sig="ok", tk="none", jph="none", jr=0, jv="same", jinst="same",
-             jsupp="same", jS="strong", jagg="ok")
-    d.update(k)
-    return d
+base_row = mc.base_row
 
 
 def design(ck, out):
@@ -72,6 +68,16 @@ def compose(ck, rows, path):
             e["fam"] = fi
             out.append(e)
     nf = len(fams)
+    # one-coordinate neighbourhoods of valid-looking messages: once where everything of the current instance is relevant, once anywhere
+    for a in mc.valid_looking():
+        nb = mc.neighbours(a)
+        for g in (dict(di=0, cr=0, cph="PREPARE", ep=0), mc.pick_progress(rng)):
+            for d in nb:
+                e = dict(d)
+                e.update(g)
+                e["fam"] = nf
+                out.append(e)
+            nf += 1
     for ai, a in enumerate(ALPHABET):
         for ep in (0, 1, 2):
             grid = [(di, cr, cph) for di in range(-2, mc.LOOKBACK + 2) for cr in range(4) for cph in mc.PROGRESS_PHASES]
@@ -158,7 +164,7 @@ def run(ck):
 
 MANIFEST = dict(
     text=("TLC enumerates the abstract message space (step x round {0,1,2,2^64-1} x value x sender x signature x ticket x justification "
-          "{none} + phase x round offset x value x instance x supplemental data x signer set x aggregate; 830 800 messages, quick: a seeded 1/16 slice of "
+          "{none} + phase x round offset x value x instance x supplemental data x signer set x aggregate; 830 800 messages, quick: a seeded 1/32 slice of "
           "whole twin families) and checks on every message that the implementation-shaped verdict function (checks in the order of validator.go) accepts "
           "exactly when the declarative rules of C05 hold, and on a message alphabet x all progress states that the relevance window is the stated one; "
           "a variant with the original MaxUint64 round sentinel must be refuted. Every enumerated row (+ alphabet x instance -2..+5 x round 0..3 x 7 phases) is "
